@@ -48,6 +48,7 @@ type Batch struct {
 //	"checkpoint" CreateCheckpoint()                                 (sync mode: called directly)
 //	"rotate"     the rotate branch of SyncWAL: Truncate(0) + WriteStatus(OPEN, NOTREPLAYED)
 //	"shutdown"   graceful shutdown (background mode: Shutdown(); sync mode: FlushToWAL+CreateCheckpoint)
+//	"destroy"    catalog.RemoveTimeBucket of the bucket Batches[0].Bucket (no rows); synchronous mode
 //	"enqueue"    background mode only: WriteCSM up to, and without, RequestFlush (Writer.WriteRecords per bucket):
 //	             the commands sit in the write channel until the loop's next flush (timer, another writer's
 //	             request, or the shutdown branch).  Not acknowledged.
@@ -102,6 +103,7 @@ type GenOpts struct {
 	// NoVariable / OnlyVariable restrict the bucket kinds
 	NoVariable, OnlyVariable bool
 	Shutdown bool // end with a graceful shutdown
+	Destroy  bool // a bucket is destroyed after an acknowledged, not yet checkpointed write to it (C03)
 	Pending  bool // background mode: the last one or two requests are still queued when Shutdown() is called
 	Ckpt     bool // sprinkle checkpoints (and rotations)
 }
@@ -234,6 +236,36 @@ func Gen(r *rng.Rand, o GenOpts) History {
 		}
 		h.Steps = append(h.Steps, st)
 		sinceCkpt++
+	}
+	if o.Destroy {
+		// after the last write to some bucket that no checkpoint follows: destroy it, then (usually) go on
+		// writing to the other buckets; every crash prefix from there on finds a WAL whose transaction
+		// group names a year file that is gone
+		last := -1
+		for i := len(h.Steps) - 1; i >= 0 && h.Steps[i].Kind == "write"; i-- {
+			last = i
+		}
+		if last >= 0 {
+			at := last + r.Intn(len(h.Steps)-last)
+			bi := h.Steps[at].Batches[r.Intn(len(h.Steps[at].Batches))].Bucket
+			var steps []Step
+			steps = append(steps, h.Steps[:at+1]...)
+			steps = append(steps, Step{Kind: "destroy", Batches: []Batch{{Bucket: bi}}})
+			for _, st := range h.Steps[at+1:] {
+				// later requests leave the destroyed bucket alone
+				var bs []Batch
+				for _, b := range st.Batches {
+					if b.Bucket != bi {
+						bs = append(bs, b)
+					}
+				}
+				if len(bs) > 0 {
+					st.Batches = bs
+					steps = append(steps, st)
+				}
+			}
+			h.Steps = steps
+		}
 	}
 	if o.Shutdown {
 		h.Steps = append(h.Steps, Step{Kind: "shutdown"})
